@@ -1,4 +1,4 @@
-import Mqtt5V.Proofs.TraceIn6
+import Mqtt5V.Proofs.TraceIn8
 import Mqtt5V.Proofs.Replies
 /-! # C04 — inbound QoS 2 exactly once (waiter core)
 
@@ -69,6 +69,18 @@ the broker did not send, nothing is altered on the way, and the client's own que
 theorem composed_delivered_was_received (tr pre post : List TraceIn.Ev) (hacc : TraceIn.accepts tr = true) (hsplit : tr = pre ++ post) (q p m : Nat) :
     TraceIn.cnt (TraceIn.isDeliverMsg q p m) pre ≤ TraceIn.cnt (TraceIn.isRxPubMsg q p m) pre :=
   Mqtt5V.Proofs.TraceIn.delivered_was_received hacc pre post hsplit q p m
+
+/-- **C04 end to end (order)**: after every prefix, the QoS 0 messages handed to the application are, in this order, a subsequence of the
+QoS 0 messages received, and the same holds for QoS 1: within one of these QoS levels messages are never reordered (the send queue hands
+the PUBACKs to the stream first in, first out; the receive channel is first in, first out). QoS 2 messages are released by their PUBRELs;
+their order is the order of the broker's PUBRELs and is left to the monitor. -/
+theorem composed_delivered_in_arrival_order (tr pre post : List TraceIn.Ev) (hacc : TraceIn.accepts tr = true) (hsplit : tr = pre ++ post) :
+    (TraceIn.delivered 0 pre).Sublist (TraceIn.received 0 pre) ∧ (TraceIn.delivered 1 pre).Sublist (TraceIn.received 1 pre) :=
+  Mqtt5V.Proofs.TraceIn.delivered_in_arrival_order hacc pre post hsplit
+
+/-- two PUBACKs written in the wrong order (and the deliveries that follow them) are refused -/
+example : TraceIn.accepts [.connUp true, .rxPub 1 7 1, .rxPub 1 8 2, .wr, .pk (.puback 8), .pk (.puback 7)] = false := by decide
+example : TraceIn.accepts [.connUp true, .rxPub 1 7 1, .rxPub 1 8 2, .wr, .pk (.puback 7), .pk (.puback 8), .wrOk, .deliver 1 7 1, .deliver 1 8 2] = true := by decide
 
 /-- non-vacuity: a QoS 2 message repeated by the broker after a reconnect (the first PUBREC was lost with the connection) is delivered once … -/
 example : TraceIn.accepts [.connUp true, .rxPub 2 7 1, .wr, .pk (.pubrec 7), .connUp true, .wrFail, .rxPub 2 7 1, .wr, .pk (.pubrec 7), .wrOk,
